@@ -3,7 +3,6 @@ use std::io;
 use std::sync::Arc;
 use std::sync::atomic::Ordering;
 
-use codeq::OffsetSize;
 use codeq::error_context_ext::ErrorContextExt;
 use log::info;
 
@@ -234,6 +233,18 @@ impl<T: Types> RaftLog<T> {
 
             let (chunk, records) = Chunk::open(config.clone(), chunk_id)?;
 
+            // The newest chunk may hold no complete record at all: the
+            // process or machine stopped after the file was created but before
+            // its initial state record reached the disk. Nothing in it was
+            // ever acknowledged; remove it so that a fresh chunk can be
+            // created at the same offset below.
+            if records.is_empty() && Some(&chunk_id) == chunk_ids.last() {
+                drop(chunk);
+                std::fs::remove_file(config.chunk_path(chunk_id))?;
+                prev_end_offset = Some(chunk_id.offset());
+                break;
+            }
+
             for (i, record) in records.into_iter().enumerate() {
                 let start = chunk.global_offsets[i];
                 let end = chunk.global_offsets[i + 1];
@@ -241,7 +252,7 @@ impl<T: Types> RaftLog<T> {
                 sm.apply(&record, chunk_id, seg)?;
             }
 
-            prev_end_offset = Some(chunk.last_segment().end().0);
+            prev_end_offset = Some(chunk.global_end());
             last_log_id = sm.log_state.last.clone();
 
             closed.insert(
